@@ -82,7 +82,12 @@ class FakeChannel:
 
     def send(self, obj: Any) -> None:
         w = self.w
-        if not w.alive and self.sim.cfg.oserror_window and not w.end_seen:
+        if not w.alive and (w.end_seen or self.sim.cfg.oserror_window):
+            # execnet: once the end marker was seen the channel is closed and every send raises; before that a write into the
+            # pipe of a dead peer may or may not raise (`oserror_window`).  Either way the controller has booked the command
+            # for this worker (`sendcommand` swallows the error), exactly as if it had been lost in the pipe.
+            if w.boot_msg is not None and w.death_hold is not None:
+                w.death_hold["inflight"].append(obj)
             raise OSError("cannot send (already closed?)")
         if w.boot_msg is None:
             w.boot_msg = obj            # (workerinput, args, option_dict, change_sys_path)
@@ -641,8 +646,8 @@ class Sim:
                 self._flag_lines.append(f"flag-down {w.id[2:]}")
             if node._shutdown_sent and not sent_before:
                 self._flag_lines.append(f"flag-sent {w.id[2:]}")
-            if msg == "END" and self.cfg.oserror_window:
-                self._flag_lines.append(f"flag-unbroken {w.id[2:]}")
+            if msg == "END" and not w.alive:
+                self._flag_lines.append(f"flag-broken {w.id[2:]}")
             self.sys_record([f"recv {w.id[2:]}"], w)
         else:
             raise ValueError(kind)
